@@ -84,6 +84,7 @@ def parseEv (ev : List SExp) : Option TW.Ev :=
   match ev with
   | .atom "sub" :: _ => some .sub
   | .atom "emit" :: i :: n :: _ => some (.emit i.nat (parseNotif n))
+  | .atom "temit" :: i :: n :: _ => some (.emit i.nat (parseNotif n))
   | .atom "unsub" :: _ => some .unsub
   | .atom "adv" :: d :: _ => some (.adv d.nat)
   | .atom "fire" :: i :: _ => some (.fire i.nat)
